@@ -70,6 +70,9 @@ func ftyCoq(t reflect.Type) string {
 	}
 	switch t.Kind() {
 	case reflect.Interface:
+		if t.NumMethod() > 0 { // error, fmt.Stringer ...: no value of the decoded universe implements it
+			return "(FIfaceNE " + cN(typeID(t)) + ")"
+		}
 		return "(FIface " + cN(typeID(t)) + ")"
 	case reflect.Pointer:
 		if _, ok := skindCoq(t.Elem().Kind()); ok {
@@ -296,8 +299,8 @@ var umValues = []umVal{
 }
 
 // field names a document may carry, and the keys (keyPool indexes) a definition / custom list may carry
-var umNames = []string{"s", "n", "i8", "u8", "f32", "f64", "b", "any", "myint", "mystr", "p", "ints", "msi", "arr", "arr3", "pn", "ps", "pp", "pmi", "zz", "http_status", "log_level", "N", "S", "F32", "parr", "pps"}
-var umKeys = []int{0, 29, 2, 30, 39, 4, 9, 13, 14, 15, 19, 21, 22, 24, 26, 27, 28, 32, 33, 34, 35, 36, 42, 43}
+var umNames = []string{"s", "n", "i8", "u8", "f32", "f64", "b", "any", "myint", "mystr", "p", "ints", "msi", "arr", "arr3", "pn", "ps", "pp", "pmi", "zz", "http_status", "log_level", "N", "S", "F32", "parr", "pps", "ierr", "istr"}
+var umKeys = []int{0, 29, 2, 30, 39, 4, 9, 13, 14, 15, 19, 21, 22, 24, 26, 27, 28, 32, 33, 34, 35, 36, 42, 43, 44, 45}
 
 // ---------- document DSL ----------
 
@@ -383,7 +386,7 @@ func pickValueFor(r *Rng, name string) int {
 		"f32": {"f3.5", "f1e20", "i5", "i2^40", "float32(1.5)", "fmaxf32", "f-maxf32", "f0.1", "f1e-45"}, "f64": {"f3.5", "i5", "str", "f0.1", "f2^53+2"},
 		"b": {"true", "str"}, "any": {"str", "nil", "f3", "mapP"}, "myint": {"f3", "MyInt(9)", "int(4)", "i5"},
 		"mystr": {"str", "MyStr"}, "p": {"mapP", "mapBadP", "P", "ptrP", "listInts", "mapNaN"}, "ints": {"listInts", "listStr", "mapP", "listChan", "listInf"},
-		"zz": {"nil", "str", "f3", "nil"},
+		"zz": {"nil", "str", "f3", "nil"}, "ierr": {"str", "f3", "nil", "mapP"}, "istr": {"str", "MyStr", "nil", "true"},
 		"msi": {"mapSI", "mapP"}, "arr": {"arr2", "arr3", "listInts"}, "arr3": {"arr2", "arr3"},
 		"pn": {"int(4)", "f3", "ptrInt", "nilPtrInt", "i5"}, "ps": {"str", "MyStr"}, "pp": {"mapP", "mapBadP", "ptrP"},
 		"pmi": {"MyInt(9)", "int(4)"}, "http_status": {"f3", "str"}, "log_level": {"f3", "str"},
